@@ -54,6 +54,9 @@ def worker(task):
                 and r["task"][0].split(".")[0] not in ("UpdateMethod", "TransformMethod"):
             viols.append({"key": f"C02.S|returns-RECV|{r['task'][0]}", "site": "", "value": p["value"],
                           "how": "return", "entry": r["entry"], "path": p["desc"]})
+        if p["kind"] == "ok" and "RECV" in p.get("value_inner", []) and not is_imm(p["value"], p["imm"]):
+            viols.append({"key": f"C02.S|shallow-result|{r['task'][0]}", "site": "", "value": p["value"],
+                          "how": "shallow-copy", "entry": r["entry"], "path": p["desc"]})
     r["viols"] = viols
     for p in r["paths"]:
         p.pop("notes", None)
@@ -158,8 +161,10 @@ def check(ctx, rep: Report):
         rep.oblige("C02.S", r["entry"], not r["viols"], f"{len(r['paths'])} paths")
         for v in r["viols"]:
             fn, stmt = ctx.p.stmt_at(v["site"]) if v["site"] else (r["task"][0], "return")
-            rep.violate(Violation("C02.S", v["key"],
-                                  f"receiver-reachable object `{v['value']}` is {v['how']}-stored into / returned with the copy: `{stmt}`",
+            what = (f"the result `{v['value']}` is only a shallow (or memo-seeded) copy of the receiver: every nested value is shared with it"
+                    if v["how"] == "shallow-copy" else
+                    f"receiver-reachable object `{v['value']}` is {v['how']}-stored into / returned with the copy: `{stmt}`")
+            rep.violate(Violation("C02.S", v["key"], what,
                                   v["site"], fn, v["path"], v["entry"]))
 
     # ---- C02.RET
